@@ -135,7 +135,7 @@ func refWord(v reflect.Value) uintptr {
 	case reflect.Func:
 		// the func value itself (pointer to the closure object), not the code pointer
 		return *(*uintptr)(unsafe.Pointer(v.UnsafeAddr()))
-	case reflect.Ptr, reflect.UnsafePointer:
+	case reflect.Ptr, reflect.UnsafePointer, reflect.Map:
 		return v.Pointer()
 	case reflect.Interface:
 		if v.IsNil() {
@@ -200,6 +200,11 @@ func Fill(v reflect.Value, rnd func() uint64, id *Ident) {
 		p := reflect.New(t.Elem())
 		v.Set(p)
 		id.add(p.Pointer())
+	case reflect.Map:
+		// reference-like: a fresh (empty) map whose identity is tracked
+		m := reflect.MakeMap(t)
+		v.Set(m)
+		id.add(m.Pointer())
 	case reflect.Interface:
 		if t == hashType || (t.NumMethod() > 0 && reflect.TypeOf(&sentinelHash{}).Implements(t)) {
 			h := &sentinelHash{rnd()}
@@ -259,7 +264,7 @@ func Render(v reflect.Value, id *Ident) string {
 			ss = append(ss, Render(v.Index(i), id))
 		}
 		return "l:" + strings.Join(ss, "/")
-	case reflect.Func, reflect.Ptr, reflect.Interface:
+	case reflect.Func, reflect.Ptr, reflect.Interface, reflect.Map:
 		return id.of(refWord(v))
 	case reflect.Struct:
 		if t == timeType {
